@@ -155,8 +155,8 @@ var _ = fmt.Sprint
 var _ = strings.Contains
 
 func init() {
-	Register(&Family{Name: "c16.rpc", Props: []string{"C16"}, New: func() any { return &MixParams{} }, Gen: genC16RPC, Exec: execC16RPC})
-	Register(&Family{Name: "c16.burst", Props: []string{"C16"}, New: func() any { return &C16BurstParams{} }, Gen: genC16Burst, Exec: execC16Burst,
+	Register(&Family{Name: "c16.rpc", ShrinkKeys: []string{"callers"}, Props: []string{"C16"}, New: func() any { return &MixParams{} }, Gen: genC16RPC, Exec: execC16RPC})
+	Register(&Family{Name: "c16.burst", ShrinkKeys: []string{"n", "stall"}, Props: []string{"C16"}, New: func() any { return &C16BurstParams{} }, Gen: genC16Burst, Exec: execC16Burst,
 		Faulty: true, FaultKinds: []string{"link.stall"}})
 }
 
@@ -198,5 +198,5 @@ func execC18RPC(e *Env, pp any) {
 }
 
 func init() {
-	Register(&Family{Name: "c18.rpc", Props: []string{"C18"}, New: func() any { return &MixParams{} }, Gen: genC18RPC, Exec: execC18RPC})
+	Register(&Family{Name: "c18.rpc", ShrinkKeys: []string{"callers"}, Props: []string{"C18"}, New: func() any { return &MixParams{} }, Gen: genC18RPC, Exec: execC18RPC})
 }
